@@ -8,7 +8,7 @@ import fontsynth
 import fontmut
 from props import heapcheck, segspec
 
-GEN_MODULES = ["Vm", "SlotMap"]
+GEN_MODULES = ["Vm", "SlotMap", "KernCap"]
 ASSUMPTIONS = ["theorems: slot-map bound of runFSM, insert budget, growth bound of a pass range, structural termination of code, stack discipline via C07 (Props/C02.lean)",
                "memory safety, absence of undefined behaviour and of leaks are decided on the implementation under ASan/UBSan/LSan, not by a theorem",
                "the rule-loop bound maxRuleLoop x (slots + insert budget + 2) is checked on the hook's counter (GRAPHITE2_VERIF), and the counter itself is compared with the model's"]
